@@ -16,6 +16,7 @@ import (
 	"encoding/hex"
 	"encoding/json"
 	"fmt"
+	"os"
 	"runtime"
 	"sync"
 
@@ -271,6 +272,9 @@ func judgeRetention(c RetentionCase) (vs []evid.Violation) {
 	after := liveHeap()
 	growth := after - before
 	lastRetention.unit, lastRetention.growth = unit, growth
+	if os.Getenv("C11_RETENTION_DEBUG") != "" {
+		fmt.Printf("retention: N=%d unit=%d growth=%d\n", c.N, unit, growth)
+	}
 	if bound := retentionUnits*unit + retentionSlack; growth > bound {
 		vs = append(vs, evid.V("memory-follows-use-not-history", "%s of %s: after %d decode calls (%d bytes of data each), each against a freshly parsed definition and with nothing kept by the caller, the live heap is %d bytes larger than before (%d bytes per call); one definition with its decoded tree occupies %d bytes while held, allowed growth %d x that + %d = %d bytes",
 			c.Entry, c.Decl, c.N, len(data), growth, growth/int64(c.N), unit, retentionUnits, retentionSlack, bound))
@@ -349,7 +353,7 @@ func genRetentionCase(rt *rapid.T) (RetentionCase, bool, []string) {
 		rt.Skip("long input")
 	}
 	c := RetentionCase{Entry: entry, Name: b.c.Name, Decl: b.c.Decl, Anonymous: b.c.Anonymous, Input: inputOf(b, b.raw),
-		N: rapid.SampledFrom([]int{2000, 3000, 4000}).Draw(rt, "n")}
+		N: rapid.SampledFrom([]int{6000, 10000}).Draw(rt, "n")}
 	if len(b.raw) > 0 && rapid.IntRange(0, 3).Draw(rt, "truncated") == 0 {
 		// a malformed input: the error path must not retain anything either
 		c.Input = inputOf(b, b.raw[:rapid.IntRange(0, len(b.raw)-1).Draw(rt, "cut")])
